@@ -57,6 +57,15 @@ Next ==
                 LET row == HRow(p, ps, first, d, c, h) IN
                 /\ Assert(HRoundTrip(row, p, ps, d, c, h), <<"hfs grammar does not round-trip", row.name>>)
                 /\ PrintT(<<"NAME", ToJson(row)>>)
+  \* one-way pattern + hfs: a well-formed NAME (it parses) for which no endpoint can be built (C12) - parse-only strings
+  /\ IF HfsN
+     THEN \A p \in PatSetN \cap OneWay : \A ps \in SUBSET (0..NumMsgs(p)) : \A first \in BOOLEAN :
+            \A d \in DhNames : \A c \in CipherNames : \A h \in HashNames :
+              LET mods == IF first THEN <<"hfs">> \o PskMods(ps) ELSE PskMods(ps) \o <<"hfs">>
+                  nm == NameOf(p, mods, d \o "+Kyber1024", c, h) IN
+              /\ Assert(ParseNameH(nm, TRUE).ok /\ "B_MODIFIER" \in NameBuildCauses(ParseNameH(nm, TRUE)), <<"one-way hfs name", nm>>)
+              /\ PrintT(<<"STR", ToJson(nm)>>)
+     ELSE TRUE
 Spec == Init /\ [][Next]_done
 TableOk == TableValid
 =============================================================================
